@@ -10,7 +10,7 @@ mkdir -p $B/bin $B/overlay
 if [ ! -x $B/bin/rewrite ] || [ $V/tools/rewrite/main.go -nt $B/bin/rewrite ]; then
   (cd $V/tools/rewrite && go build -o $B/bin/rewrite .) || { echo "build: rewriter failed" >&2; exit 2; }
 fi
-YIELD=github.com/lindb/lindb/kv,github.com/lindb/lindb/pkg/queue,github.com/lindb/lindb/replica,github.com/lindb/lindb/index,github.com/lindb/lindb/tsdb,github.com/lindb/lindb/query,github.com/lindb/lindb/coordinator/master,github.com/lindb/lindb/internal/concurrent,github.com/lindb/lindb/app/storage/rpc
+YIELD=github.com/lindb/lindb/kv,github.com/lindb/lindb/pkg/queue,github.com/lindb/lindb/replica,github.com/lindb/lindb/index,github.com/lindb/lindb/tsdb,github.com/lindb/lindb/query,github.com/lindb/lindb/coordinator/master,github.com/lindb/lindb/coordinator/discovery,github.com/lindb/lindb/internal/concurrent,github.com/lindb/lindb/app/storage/rpc
 CONSTS=github.com/lindb/lindb/pkg/queue.dataPageSize=512,github.com/lindb/lindb/pkg/queue.indexItemsPerPage=8,github.com/lindb/lindb/pkg/bufioutil.defaultWriteBufferSize=4096
 $B/bin/rewrite -dir /repo -out $B/overlay -const $CONSTS -yield $YIELD \
   ./kv/... ./pkg/... ./replica/... ./index/... ./tsdb/... ./query/... ./coordinator/... ./internal/... ./flow/... ./aggregation/... ./app/storage/rpc/... ./series/... ./models/... ./metrics/... ./rpc/... > $B/rewrite.log 2>&1 || { cat $B/rewrite.log >&2; echo "build: rewrite failed" >&2; exit 2; }
